@@ -655,6 +655,7 @@ namespace occa {
       operators.add(op::mod.str              , &op::mod);
 
       operators.add(op::lessThan.str         , &op::lessThan);
+      operators.add(op::compare.str          , &op::compare);
       operators.add(op::lessThanEq.str       , &op::lessThanEq);
       operators.add(op::equal.str            , &op::equal);
       operators.add(op::notEqual.str         , &op::notEqual);
